@@ -9,7 +9,10 @@
    2. The hand model of `tiered_reference_script_fee`, `fee`, `max_tx_fee` (pinned text of what the
       translator produces from the current source; coq/gen/FeeGen.v is proved equal to it on every run).
    3. [Ledger]: the Conway minimum-fee rule in exact rationals (the SPECIFICATION).
-   4. The size algebra of the two estimate passes of TransactionBuilder._add_change_and_fee. *)
+   4. The size algebra of the two estimate passes of TransactionBuilder._add_change_and_fee.
+   5. What the estimate is told about the UTxOs the transaction touches: `_ref_script_size` (bytes of the scripts
+      carried by spent and referenced UTxOs) and `_witness_count` (one placeholder witness per required key),
+      next to the ledger's reading of the same final transaction against its UTxO set. *)
 From Coq Require Import ZArith QArith Qround String List Bool.
 From Coq Require Import PrimFloat.
 From Coq Require SpecFloat FloatOps Uint63.
@@ -339,3 +342,86 @@ Section TwoPass.
   Definition old_coin2 : Z := tp_c0 t + (tp_avail t - old_fee2).
   Definition old_final : Z := tp_k0 t + tp_kc t + widthZ old_fee2 + widthZ old_coin2.
 End TwoPass.
+
+(* ------------------------------------------------------------------ 5. the UTxOs a transaction touches *)
+(* a UTxO as far as the fee is concerned: its reference, the size in bytes of the script its output carries (if any)
+   and the payment key hash that locks it (None: locked by a script) *)
+Record futxo := { fu_id : bytes; fu_ix : N; fu_script : option Z; fu_key : option bytes }.
+Definition oref := (bytes * N)%type.
+Definition fu_ref (u : futxo) : oref := (fu_id u, fu_ix u).
+Definition oref_eqb (a b : oref) : bool := bytes_eqb (fst a) (fst b) && (snd a =? snd b)%N.
+Definition optZ_eqb (a b : option Z) : bool :=
+  match a, b with Some x, Some y => x =? y | None, None => true | _, _ => false end.
+Definition optB_eqb (a b : option bytes) : bool :=
+  match a, b with Some x, Some y => bytes_eqb x y | None, None => true | _, _ => false end.
+(* UTxO.__eq__: input and output are compared *)
+Definition futxo_eqb (u v : futxo) : bool :=
+  oref_eqb (fu_ref u) (fu_ref v) && optZ_eqb (fu_script u) (fu_script v) && optB_eqb (fu_key u) (fu_key v).
+Definition fu_mem (u : futxo) (l : list futxo) : bool := existsb (futxo_eqb u) l.
+
+(* TransactionBuilder._ref_script_size:
+     for utxo in inputs + [reference inputs that are UTxOs]:
+         if utxo in seen: continue
+         seen.append(utxo); s = utxo.output.script
+         if s is None: continue
+         ref_script_size += len(s)            (native scripts: len(s.to_cbor())) *)
+Fixpoint ref_size_loop (seen l : list futxo) (acc : Z) : Z :=
+  match l with
+  | [] => acc
+  | u :: r => if fu_mem u seen then ref_size_loop seen r acc
+              else ref_size_loop (u :: seen) r (match fu_script u with Some n => acc + n | None => acc end)
+  end.
+Definition builder_ref_size (inputs refs : list futxo) : Z := ref_size_loop [] (inputs ++ refs) 0.
+
+(* TransactionBuilder._witness_count without witness_override, on the slice inputs / collateral / required signers /
+   key leaves of native scripts: the size of the SET of key hashes *)
+Definition bmem (k : bytes) (l : list bytes) : bool := existsb (bytes_eqb k) l.
+Fixpoint bdistinct_from (seen l : list bytes) : list bytes :=
+  match l with
+  | [] => []
+  | k :: r => if bmem k seen then bdistinct_from seen r else k :: bdistinct_from (k :: seen) r
+  end.
+Definition bdistinct (l : list bytes) : list bytes := bdistinct_from [] l.
+Definition fu_keys (u : futxo) : list bytes := match fu_key u with Some k => [k] | None => [] end.
+Definition builder_witness_count (inputs collaterals : list futxo) (required script_keys : list bytes) : Z :=
+  Z.of_nat (List.length (bdistinct (flat_map fu_keys (inputs ++ collaterals) ++ required ++ script_keys))).
+
+(* The ledger's reading (SPECIFICATION).  [tbl] is the UTxO set, one entry per reference.
+   Conway, txNonDistinctRefScriptsSize: the outputs of  inputs ∪ referenceInputs  (a SET of references: an output that
+   is both spent and referenced is looked up once) contribute the size of the script they carry; the same script on
+   two different outputs is charged twice. *)
+Module Touched.
+  Fixpoint resolve (tbl : list futxo) (r : oref) : option futxo :=
+    match tbl with
+    | [] => None
+    | u :: t => if oref_eqb (fu_ref u) r then Some u else resolve t r
+    end.
+  Fixpoint resolve_all (tbl : list futxo) (rs : list oref) : option (list futxo) :=
+    match rs with
+    | [] => Some []
+    | r :: t => match resolve tbl r, resolve_all tbl t with
+                | Some u, Some us => Some (u :: us)
+                | _, _ => None
+                end
+    end.
+  Definition omem (r : oref) (l : list oref) : bool := existsb (oref_eqb r) l.
+  Fixpoint distinct_from (seen l : list oref) : list oref :=
+    match l with
+    | [] => []
+    | r :: t => if omem r seen then distinct_from seen t else r :: distinct_from (r :: seen) t
+    end.
+  Definition distinct (l : list oref) : list oref := distinct_from [] l.
+  Definition script_bytes_at (tbl : list futxo) (r : oref) : Z :=
+    match resolve tbl r with
+    | Some u => match fu_script u with Some n => n | None => 0 end
+    | None => 0
+    end.
+  Definition ref_script_bytes (tbl : list futxo) (inputs refs : list oref) : Z :=
+    fold_right Z.add 0 (map (script_bytes_at tbl) (distinct (inputs ++ refs))).
+  (* key witnesses the ledger asks for in this slice: the keys locking spent and collateral inputs, the required
+     signers of the body, the key leaves of the native scripts that run *)
+  Definition keys_at (tbl : list futxo) (r : oref) : list bytes :=
+    match resolve tbl r with Some u => fu_keys u | None => [] end.
+  Definition needed_keys (tbl : list futxo) (inputs collateral : list oref) (required script_keys : list bytes) : list bytes :=
+    bdistinct (flat_map (keys_at tbl) (inputs ++ collateral) ++ required ++ script_keys).
+End Touched.
